@@ -130,6 +130,9 @@ struct Plan
   int endFrac = 0;       // 0..8 : fraction of the planned bytes after which a peer end happens
   unsigned endAfterSends = 0; // app close after thread 0 issued this many sends
   unsigned earlySends = 0;    // thread-0 sends issued before the session is announced / from the callback
+  bool syncRead = false;      // peer->iora bytes are read through ReadMode::Sync + receiveSync() polling instead of onData
+  std::uint32_t syncBuf = 4096;   // buffer handed to receiveSync
+  std::uint32_t syncTimeoutMs = 1; // its (short) timeout: many timed-out calls between arrivals
 
   std::size_t totalI2P() const
   {
@@ -202,7 +205,9 @@ std::string describe(const Plan &p)
   for (std::size_t i = 0; i < p.wrFaults.size(); ++i) f << (i ? "," : "") << stepStr(p.wrFaults[i]);
   f << "] rdFaults=[";
   for (std::size_t i = 0; i < p.rdFaults.size(); ++i) f << (i ? "," : "") << stepStr(p.rdFaults[i]);
-  f << "] end=" << (p.end == EndNone ? "none" : p.end == EndPeerFin ? "peerFIN" : p.end == EndPeerRst ? "peerRST" : "appClose");
+  f << "]";
+  if (p.syncRead) f << " syncRead(buf=" << p.syncBuf << ",timeout=" << p.syncTimeoutMs << "ms)";
+  f << " end=" << (p.end == EndNone ? "none" : p.end == EndPeerFin ? "peerFIN" : p.end == EndPeerRst ? "peerRST" : "appClose");
   if (p.end == EndPeerFin || p.end == EndPeerRst) f << "@" << p.endFrac << "/8";
   if (p.end == EndAppClose) f << "@send" << p.endAfterSends;
   return f.str();
@@ -341,6 +346,23 @@ Plan drawPlan(pbt::Src &src, bool tls)
   std::size_t n0 = p.threads.empty() ? 0 : p.threads[0].size();
   p.endAfterSends = static_cast<unsigned>(src.range(0, static_cast<std::int64_t>(n0)));
   p.earlySends = src.coin(1, 3) ? static_cast<unsigned>(src.range(0, static_cast<std::int64_t>(std::min<std::size_t>(n0, 4)))) : 0;
+  p.syncRead = wantP2I && src.coin(1, 4);
+  p.syncBuf = src.oneOf<std::uint32_t>({1, 7, 512, 4096, 65536});
+  p.syncTimeoutMs = src.oneOf<std::uint32_t>({0, 1, 1, 3});
+  if (p.syncRead)
+  {
+    // receiveSync() erases the copied prefix of its buffer on every call: tiny read buffers are
+    // quadratic in the backlog, so keep the reverse stream small for them
+    std::size_t cap = p.syncBuf == 1 ? 3000 : p.syncBuf == 7 ? 20000 : 400 * 1024, tot = 0;
+    std::size_t keep = 0;
+    while (keep < p.peerWrites.size() && tot + p.peerWrites[keep].size <= cap) tot += p.peerWrites[keep++].size;
+    if (keep == 0 && !p.peerWrites.empty())
+    {
+      p.peerWrites[0].size = static_cast<std::uint32_t>(std::min<std::size_t>(p.peerWrites[0].size, cap));
+      keep = 1;
+    }
+    p.peerWrites.resize(keep);
+  }
   return p;
 }
 
@@ -1120,6 +1142,42 @@ void runPlan(const Plan &p, pbt::Case &c)
     return;
   }
 
+  // ---- optional: read the reverse stream through Sync mode + receiveSync() with short timeouts.
+  // The mode is switched before the raw peer writes its first byte (its thread starts below), so
+  // every byte goes through the sync buffer; the same exact-stream oracle applies to what the
+  // polling reader collects. Single waiter (contract), never on the I/O thread (contract).
+  std::atomic<bool> readerStop{false};
+  std::thread reader;
+  const bool useSync = p.syncRead && p.dir != I2P && t->setReadMode(sid, net::ReadMode::Sync);
+  if (useSync)
+  {
+    reader = std::thread([&, sid] {
+      c01net::harnessThread(true);
+      std::vector<std::uint8_t> b(p.syncBuf ? p.syncBuf : 1);
+      for (;;)
+      {
+        std::size_t len = b.size();
+        auto r = t->receiveSync(sid, b.data(), len, std::chrono::milliseconds(p.syncTimeoutMs));
+        if (r.isOk())
+        {
+          {
+            std::lock_guard<std::mutex> lk(sh->mu);
+            sh->D.insert(sh->D.end(), b.begin(), b.begin() + static_cast<std::ptrdiff_t>(r.value()));
+          }
+          sh->ticks.fetch_add(1);
+          sh->cv.notify_all();
+        }
+        else if (r.error().code == net::TransportError::Timeout)
+        {
+          if (readerStop.load()) break;
+          if (p.syncTimeoutMs == 0) std::this_thread::sleep_for(std::chrono::microseconds(50));
+        }
+        else
+          break; // PeerClosed after the drain, ShuttingDown, ...
+      }
+    });
+  }
+
   // ---- run: peer thread + sender threads
   std::thread peerThread([&peer] {
     c01net::harnessThread(true);
@@ -1363,6 +1421,11 @@ void runPlan(const Plan &p, pbt::Case &c)
 
   // ---- snapshot, then tear down
   for (auto &s : senders) s.join();
+  if (reader.joinable())
+  {
+    readerStop = true; // an open session: stop at the next timeout; a closed one: the reader drains and ends with PeerClosed
+    reader.join();
+  }
   peer.stop = true;
   peerThread.join();
   bool closed;
@@ -1399,6 +1462,7 @@ void runPlan(const Plan &p, pbt::Case &c)
   if (cnt.unexpected) c.label("engine used writev/sendmsg/recvmsg on its socket");
   if (p.tls && cnt.viaReadWrite == 0) c.label("TLS: BIO traffic not seen by the interposer");
   if (p.tls && cnt.wrAgainInj) c.label("TLS: WANT_WRITE forced (EAGAIN under SSL)");
+  if (useSync) c.label("peer->iora read through Sync mode + receiveSync polling");
   if (early) c.label(p.role == Connector ? "sends before onConnect" : (p.tls ? "sends from onAccept during TLS handshake" : "sends from onAccept"));
   if (closed) c.label(std::string("closed: ") + codeName(closeCode));
   if (p.end != EndNone) c.label(p.end == EndPeerFin ? "early end: peer FIN" : p.end == EndPeerRst ? "early end: peer RST" : "early end: app close");
@@ -1871,6 +1935,22 @@ PBT_REGRESSION(tls12_connector_sends_before_onconnect_peer_fin)
   p.end = EndPeerFin;
   p.endFrac = 8;
   p.wrFaults = {{c01net::CUT_ABS, 1}, {c01net::AGAIN, 0}, {c01net::CUT_ABS, 100}};
+  runPlan(p, c);
+}
+
+// reverse stream read through Sync mode + receiveSync() with 1 ms timeouts while the peer pauses between
+// chunks: many timed-out calls lie between arrivals (seeded change C01-D dropped the bytes that arrive
+// between a timed-out call and the next one)
+PBT_REGRESSION(sync_mode_polling_reader_sees_every_byte)
+{
+  Plan p = basePlan();
+  p.dir = P2I;
+  p.role = Listener;
+  p.syncRead = true;
+  p.syncBuf = 512;
+  p.syncTimeoutMs = 1;
+  p.peerWrites = {IoStep{100, 2000}, IoStep{1, 2000}, IoStep{3000, 600}, IoStep{7, 2000}, IoStep{20000, 2000}, IoStep{5, 2000}, IoStep{64, 0}};
+  p.rdFaults = {{c01net::CUT_ABS, 1}, {c01net::CUT_ABS, 50}, {c01net::PASS, 0}, {c01net::CUT_END, 1}};
   runPlan(p, c);
 }
 
